@@ -41,15 +41,35 @@ func fmtClientItem(it server.VerifTSSItem, ok bool) string {
 }
 
 // recHandle runs one request and returns its record
-// [0 cid org rx tx rxt now pre rorg rrx rtx rref rxt' txt' post].
+// [0 cid org rx tx rxt now pre rorg rrx rtx rref rxt' txt' post adm]; adm (for a client without an
+// item): number of clients, key and queue value of the root of the priority queue before the call,
+// and whether that client has lost its item after it.
 func recHandle(o op) (rec string, r handleResult, pre, post server.VerifTSSItem, preOK, postOK bool) {
 	pre, preOK = clientItem(o.cid)
+	adm := "[]"
+	var hk string
+	var hq ntp.Time64
+	var n int
+	if !preOK {
+		n, _ = server.VerifTSSLen()
+		hk, hq, _ = server.VerifTSSQueueHead()
+	}
 	r = doHandle(o)
 	post, postOK = clientItem(o.cid)
+	if !preOK {
+		gone := false
+		hcid := int64(-1)
+		if hk != "" {
+			_, still := server.VerifTSSClient(hk)
+			gone = !still
+			hcid = cidOf(hk)
+		}
+		adm = lib.L(lib.I(int64(n)), lib.I(hcid), lib.U(t64num(hq)), lib.Bool(gone))
+	}
 	rec = lib.L("0", lib.I(o.cid), lib.U(o.org), lib.U(o.rx), lib.U(o.tx), lib.I(o.rxt), lib.I(o.now),
 		fmtClientItem(pre, preOK),
 		lib.U(r.org), lib.U(r.rx), lib.U(r.tx), lib.U(r.ref), lib.I(r.rxt), lib.I(r.txt),
-		fmtClientItem(post, postOK))
+		fmtClientItem(post, postOK), adm)
 	return
 }
 
@@ -92,6 +112,19 @@ func fullFamily(variant, nparts, salt int64) {
 			t += r.Range(1, 5000)
 			res := doHandle(op{kind: 0, cid: part[j], org: 0, rx: 7, tx: 7, rxt: t, now: now})
 			rxts[part[j]] = append(rxts[part[j]], res.rxt)
+		}
+	}
+	// the least recently active clients hold several exchanges as well, and some of them had their
+	// most recent one dropped again (queue value lowered at the root of the queue): these are the
+	// items the newcomers below evict
+	for i := int64(0); i < 60; i++ {
+		extra := r.Intn(5)
+		var last handleResult
+		for e := 0; e < extra; e++ {
+			last = doHandle(op{kind: 0, cid: i, org: 0, rx: 7, tx: 7, rxt: t0 + i*step + int64(e+1)*(step/8), now: now})
+		}
+		if extra > 0 && r.Bool() {
+			doUpdate(op{kind: 1, cid: i, rxt: last.rxt, txt: last.txt}) // unread: dropped, the client is ranked by the exchange before
 		}
 	}
 	var recs []string
